@@ -137,3 +137,13 @@ Theorem C19_ratio_pred :
 Proof. exact OptLoop.C19_ratio_pred. Qed.
 Print Assumptions C19_ratio_pred.
 
+
+Theorem C19_step_le_max_binary64 :
+  forall (fexp : F -> F) (score : N -> list F -> option F) (c : cfg NumF) (ps : list (carrier
+    NumF)) (hs : list (handle NumF)) (s0 : carrier NumF) (draws : list (draw NumF)), ffin
+    (max_step NumF c) -> fleb 0 (max_step NumF c) = true -> let st := run NumF fexp score c
+    (init NumF c ps hs s0) draws in fleb (max_step NumF c * ratio NumF st)%num (max_step NumF c)
+    = true.
+Proof. exact F_C19_step_le_max. Qed.
+Print Assumptions C19_step_le_max_binary64.
+
